@@ -98,4 +98,14 @@ def runF (bad : Bytes → Bool) (s : RunF) : List Bytes → RunF
     let r := recvF bad s.buf c
     runF bad { buf := r.1, handed := s.handed ++ r.2.1, raises := s.raises + (if r.2.2 then 1 else 0) } cs
 
+/-! ### a frame whose handling closes the connection (C05 / C16): the layers above may ask for a disconnect while a frame is being
+handed upward (a stream error, a login failure); the network layer closes synchronously and `on_disconnected` drops the read buffer while
+`receive` is still inside its loop.  The loop re-reads `self._read_buffer` at every turn, so it ends there: what was behind the closing
+frame belonged to the dead connection and is gone, and the next connection starts from an empty buffer. `closes f` = handling `f` closes. -/
+
+/-- `receive(data)` of an enabled layer: new buffer, frames handed upward (the closing one is the last), closed? -/
+def recvC (closes : Bytes → Bool) (buf chunk : Bytes) : Bytes × List Bytes × Bool :=
+  let r := peelF closes (buf ++ chunk)
+  if r.2.2 then ([], r.1, true) else (r.2.1, r.1, false)
+
 end Yow.Segments
